@@ -632,6 +632,9 @@ func (s *Store) resolveWritePath(name string) (string, error) {
 		if err := ensureRealPathInBase(base, target); err != nil {
 			return "", err
 		}
+		// write to the path that was validated: an absolute name is not
+		// cleaned by absPath and may pass through symbolic links and ".."
+		path = target
 	}
 	if s.DisableOverwrite {
 		if _, err := os.Stat(path); err == nil {
